@@ -47,6 +47,22 @@ theorem C11_no_amplification (sz : Sizes) (C : Crypto) (cfg : SCfg) (ins : List 
   have h0 : psip ({ cfg := cfg } : Srv).temps a = 0 := rfl
   omega
 
+theorem runLoop_append (sz : Sizes) (C : Crypto) (s : Srv) (pre post : List IterIn) :
+    (runLoop sz C s (pre ++ post)).2 = (runLoop sz C s pre).2 ++ (runLoop sz C (runLoop sz C s pre).1 post).2 := by
+  induction pre generalizing s with
+  | nil => simp [runLoop]
+  | cons i rest ih => simp only [List.cons_append, runLoop, ih, List.append_assoc]
+
+/-- ... **at every iteration boundary up to the promotion**: whatever the run goes on to do (the
+address may well complete the handshake later), as long as `a` has not been promoted in the first
+`pre` iterations, the bytes sent to it in those iterations - a prefix of the events of the whole
+run - do not exceed the bytes queued from it in them. -/
+theorem C11_no_amplification_until_promoted (sz : Sizes) (C : Crypto) (cfg : SCfg) (pre post : List IterIn) (a : Addr)
+    (hnc : ∀ id tok, SEvent.connect id a tok ∉ (runLoop sz C { cfg := cfg } pre).2) :
+    (∃ rest, (runLoop sz C { cfg := cfg } (pre ++ post)).2 = (runLoop sz C { cfg := cfg } pre).2 ++ rest) ∧
+    bytesTo a (runLoop sz C { cfg := cfg } pre).2 ≤ (pre.map (fun i => bytesFrom a i.batch)).sum :=
+  ⟨⟨_, runLoop_append sz C _ pre post⟩, C11_no_amplification sz C cfg pre a hnc⟩
+
 /-- **What a half-open connection sends**: `update()` of a connection that has not been promoted
 emits a datagram only if a reply is queued; the datagram carries queued SERVER_HELLO messages only,
 they leave the queue, and the connection stays quiet - no keep-alive, no resend, no callback. -/
